@@ -41,7 +41,7 @@ def deadline_writes(R):
 
 def run(cx):
     R = cx.R
-    with cx.instance("C10.a", "T4 SIBLING", "every write of an active deadline is add(now, cfg.active_timeout_ms) with now fed from the step's clock", floor=8) as inst:
+    with cx.instance("C10.a", "T4 SIBLING", "every write of an active deadline is add(now, cfg.active_timeout_ms) with now fed from the step's clock", floor=5) as inst:
         for b, loc, e, kind in deadline_writes(R):
             s = show(e)
             inst.site(b, loc, "timeout_time_ms = " + s)
@@ -266,6 +266,9 @@ def run(cx):
     # keepalives must actually leave: the credit test may refuse them only when the credit is negative
     from props.shared import sync_refusal_exact
     sync_refusal_exact(cx, "C10.i")
+    # handshake / disconnect retries come due in time order: the timer heap is earliest-first
+    from props.shared import heap_order
+    heap_order(cx, "C10.j", ["event"])
 
 
 SELFTEST = [
